@@ -22,6 +22,38 @@ def _range_len(it):
     return None
 
 
+_DEENUM = {}
+
+
+def _deenumerate(loop):
+    """for i, e in enumerate(X): ..e..   ->   for i in range(len(X)): ..X[i]..   (on a copy; e must not be re-bound)"""
+    if id(loop) in _DEENUM:
+        return _DEENUM[id(loop)][1]
+    out = loop
+    it = loop.iter
+    if isinstance(it, ast.Call) and isinstance(it.func, ast.Name) and it.func.id == "enumerate" and len(it.args) == 1 and not it.keywords \
+            and isinstance(loop.target, ast.Tuple) and len(loop.target.elts) == 2 and all(isinstance(e, ast.Name) for e in loop.target.elts):
+        i, e = loop.target.elts[0].id, loop.target.elts[1].id
+        rebound = any(isinstance(x, ast.Name) and x.id == e and isinstance(x.ctx, ast.Store) for s in loop.body for x in ast.walk(s))
+        if not rebound:
+            from .core import clone_ast
+            new = clone_ast(loop)
+            X = new.iter.args[0]
+
+            class Sub(ast.NodeTransformer):
+                def visit_Name(self, n):
+                    if n.id == e and isinstance(n.ctx, ast.Load):
+                        return ast.copy_location(ast.Subscript(value=clone_ast(X), slice=ast.Name(id=i, ctx=ast.Load()), ctx=ast.Load()), n)
+                    return n
+            new.body = [Sub().visit(s) for s in new.body]
+            new.target = ast.Name(id=i, ctx=ast.Store())
+            new.iter = ast.Call(func=ast.Name(id="range", ctx=ast.Load()), args=[ast.Call(func=ast.Name(id="len", ctx=ast.Load()), args=[clone_ast(X)], keywords=[])], keywords=[])
+            ast.fix_missing_locations(new)
+            out = new
+    _DEENUM[id(loop)] = (loop, out)      # keep the original alive so that its id is not reused
+    return out
+
+
 class FirstMatch:
     """result of recognising  'smallest index i of X with C(i), else default' (form A, B, C) or its mirror
     'largest index' (form *-last: scan direction and stop/overwrite discipline do not combine to first-match)"""
@@ -34,31 +66,42 @@ class FirstMatch:
         self.loop, self.over, self.var, self.cond, self.result, self.default, self.form = loop, over, var, cond, result, default, form
 
 
+def scan_form(lp):
+    """(form, loop, over, var, test, result name) of an index scan, or None"""
+    lp = _deenumerate(lp)
+    rl = _range_len(lp.iter)
+    if rl is None or not isinstance(lp.target, ast.Name) or lp.orelse:
+        return None
+    over, rev = rl
+    if len(lp.body) != 1 or not isinstance(lp.body[0], ast.If) or lp.body[0].orelse:
+        return None
+    iff = lp.body[0]
+    body = iff.body
+    var = lp.target.id
+    asg = isinstance(body[0], ast.Assign) and isinstance(body[0].targets[0], ast.Name) and isinstance(body[0].value, ast.Name) and body[0].value.id == var
+    if len(body) == 2 and asg and isinstance(body[1], ast.Break):
+        return ("A" if not rev else "A-last", lp, over, var, iff.test, body[0].targets[0].id)
+    if len(body) == 1 and asg:
+        return ("B" if rev else "B-last", lp, over, var, iff.test, body[0].targets[0].id)
+    if len(body) == 1 and isinstance(body[0], ast.Return) and isinstance(body[0].value, ast.Name) and body[0].value.id == var:
+        return ("C" if not rev else "C-last", lp, over, var, iff.test, None)
+    return None
+
+
 def first_match(stmts, what):
     """find the first-match scan in a statement list.  Accepted forms:
        A  r = d; for i in range(len(X)): if C(i): r = i; break
        B  r = d; for i in reversed(range(len(X))): if C(i): r = i            (overwrite, last writer = smallest index)
        C  for i in range(len(X)): if C(i): return i        ... return d
     """
+    loops = [_deenumerate(s) for s in stmts if isinstance(s, ast.For)]
+    stmts = [(_deenumerate(s) if isinstance(s, ast.For) else s) for s in stmts]
     loops = [s for s in stmts if isinstance(s, ast.For)]
     cands = []
     for lp in loops:
-        rl = _range_len(lp.iter)
-        if rl is None or not isinstance(lp.target, ast.Name) or lp.orelse:
-            continue
-        over, rev = rl
-        if len(lp.body) != 1 or not isinstance(lp.body[0], ast.If) or lp.body[0].orelse:
-            continue
-        iff = lp.body[0]
-        body = iff.body
-        var = lp.target.id
-        asg = isinstance(body[0], ast.Assign) and isinstance(body[0].targets[0], ast.Name) and isinstance(body[0].value, ast.Name) and body[0].value.id == var
-        if len(body) == 2 and asg and isinstance(body[1], ast.Break):
-            cands.append(("A" if not rev else "A-last", lp, over, var, iff.test, body[0].targets[0].id))
-        elif len(body) == 1 and asg:
-            cands.append(("B" if rev else "B-last", lp, over, var, iff.test, body[0].targets[0].id))
-        elif len(body) == 1 and isinstance(body[0], ast.Return) and isinstance(body[0].value, ast.Name) and body[0].value.id == var:
-            cands.append(("C" if not rev else "C-last", lp, over, var, iff.test, None))
+        c = scan_form(lp)
+        if c is not None:
+            cands.append(c)
     if len(cands) != 1:
         raise AnalysisError("%s: first-match scan not recognised (%d candidate loops of %d)" % (what, len(cands), len(loops)))
     form, lp, over, var, test, res = cands[0]
